@@ -144,6 +144,9 @@ def check_kernel(t_unit, stats: Stats) -> list[str]:
             except UnableToDetermineAccessRangeError:
                 stats.bump("undecided:not_quasi_affine")
                 return
+            except NotImplementedError:
+                stats.bump("undecided:operator_unknown_to_isl_conversion")
+                return
             from loopy.isl_helpers import make_slab
             box = isl.BasicSet.universe(rng.get_space())
             try:
@@ -168,7 +171,12 @@ def check_kernel(t_unit, stats: Stats) -> list[str]:
                     f"{bad.sample_point()} (domain {domain})"[:600])
 
         def map_if(self, expr, domain, insn_id):
-            then_set = condition_to_set(domain.space, expr.condition)
+            try:
+                then_set = condition_to_set(domain.space, expr.condition)
+            except Exception:  # noqa: BLE001
+                # (loopy's converter has no case for e.g. bitwise operators
+                # in a condition: not an affine condition either way)
+                then_set = None
             if then_set is None:
                 stats.bump("conditions_not_affine")
                 then_set = else_set = isl.BasicSet.universe(domain.space)
